@@ -387,8 +387,15 @@ type keyline struct {
 	loc gts.Location
 }
 
+// isFeatureKeyByte tests for the characters of a feature key: those of a
+// qualifier name and, for keys such as 5'UTR, 3'UTR, D-loop and -10_signal,
+// the apostrophe and the hyphen.
+func isFeatureKeyByte(c byte) bool {
+	return ascii.IsSnake(c) || c == '\'' || c == '-'
+}
+
 func featureKeylineParser(prefix string, depth int) pars.Parser {
-	word := pars.Word(ascii.IsSnake).Error(errFeatureKey)
+	word := pars.Word(isFeatureKeyByte).Error(errFeatureKey)
 	p := []byte(prefix)
 	return func(state *pars.State, result *pars.Result) error {
 		if err := state.Request(len(p)); err != nil {
@@ -428,7 +435,7 @@ func featureKeylineParser(prefix string, depth int) pars.Parser {
 func INSDCTableParser(prefix string) pars.Parser {
 	firstParser := pars.Seq(
 		prefix, pars.Spaces,
-		pars.Word(ascii.IsSnake).Error(errFeatureKey), pars.Spaces,
+		pars.Word(isFeatureKeyByte).Error(errFeatureKey), pars.Spaces,
 		gts.ParseLocation, pars.EOL,
 	).Map(func(result *pars.Result) error {
 		children := result.Children
